@@ -96,14 +96,10 @@ let () =
       let sims = List.map (fun s -> match String.split_on_char ':' s with
           | [ei; zi] -> (bytes_of_hex ei, m (vec zi))
           | _ -> failwith "bad sim") (split_on '|' sims) in
-      let bi = int_of_string b in
-      let xs = vecs xs in
-      let cs = or_commit p (nat b) (m xs) (m (vec w)) (m (vec k)) sims in
-      let es = or_shares p (nat b) (bytes_of_hex e) sims in
-      let eb = List.nth es bi in
-      let zs = List.mapi (fun i (a, zo) -> match zo with
-          | Some z -> (m z : Big_int_Z.big_int list)
-          | None -> m (p.sp_respond (m (List.nth xs i)) (m (vec w)) a (m (vec k)) eb)) cs in
-      show_vecs (List.map (fun (a, _) -> (m a : Big_int_Z.big_int list)) cs) ^ " " ^ show_blist es ^ " " ^ show_vecs zs
+      let br = or_prove p (nat b) (m (vecs xs)) (m (vec w)) (m (vec k)) sims (bytes_of_hex e) in
+      let tv x = (m x : Big_int_Z.big_int list) in
+      show_vecs (List.map (fun ((a, _), _) -> tv a) br) ^ " " ^
+      show_blist (List.map (fun ((_, ei), _) -> ei) br) ^ " " ^
+      show_vecs (List.map (fun (_, z) -> tv z) br)
     | _ -> failwith ("bad line " ^ line) in
     print_string out; print_newline (); flush stdout)
